@@ -57,8 +57,8 @@ fn check_msg(lm: &LMsg, k: &Keyed, stride: usize, rep: &mut Report) {
             return;
         }
     };
-    let n = enc.len();
     if enc != reference {
+        let n = enc.len();
         let off = enc.iter().zip(reference.iter()).position(|(a, b)| a != b).unwrap_or(0);
         rep.violate(
             if off >= n - 4 { "crc-on-wire-is-not-the-rfc-crc" } else { "bytes-before-fingerprint-differ" },
@@ -67,6 +67,13 @@ fn check_msg(lm: &LMsg, k: &Keyed, stride: usize, rep: &mut Report) {
         );
         return;
     }
+    check_wire(enc, k, stride, rep, &replay);
+}
+
+/// The wire part of `check_msg`: `enc` ends in a correct FINGERPRINT (the encoder's output, or the reference encoder's for
+/// messages the library cannot build, e.g. with unknown attributes): accepted untouched by both routes, refused after every fault.
+fn check_wire(enc: Vec<u8>, k: &Keyed, stride: usize, rep: &mut Report, replay: &dyn Fn() -> serde_json::Value) {
+    let n = enc.len();
     let plain = cu::decoder(Opts::default_ctx(), None);
     let o = Opts { ctx: true, key: true, validation: true, unknown_data: false, not_ignore: false };
     let validating = cu::decoder(o, Some(k.subject));
@@ -251,6 +258,39 @@ pub fn run(ctx: &RunCtx) -> i32 {
         r.sym("decoy-values");
         shared.merge(r);
     });
+    // unknown attributes on the wire (the library's encoder cannot produce them; bytes from the reference encoder): one unknown
+    // attribute (comprehension-required / optional type, value of 0 / 1 / 4 / 7 / 33 bytes) at every position of the four tails -
+    // in front, between the integrity attributes, directly before FINGERPRINT - alone and behind a SOFTWARE; full walk
+    {
+        let mut msgs: Vec<LMsg> = Vec::new();
+        for t in &tails {
+            for pos in 0..t.len() {
+                for ty in [0x7F31u16, 0xFF31, 0x0033, 0xC003] {
+                    for len in [0usize, 1, 4, 7, 33] {
+                        for lead in [false, true] {
+                            let mut attrs: Vec<L> = if lead { vec![L::Software("ab".into())] } else { vec![] };
+                            let mut tt = t.clone();
+                            tt.insert(pos, L::Unknown(ty, Some((0..len).map(|x| (x * 7 + 3) as u8).collect())));
+                            attrs.extend(tt);
+                            msgs.push(menu::lmsg(1, 1, [0x52; 12], attrs));
+                        }
+                    }
+                }
+            }
+        }
+        msgs.par_chunks(8).for_each(|ch| {
+            let kk = Keyed { spec: &spec, subject: &subj, raw: &raw };
+            let mut r = Report::new();
+            for lm in ch {
+                r.eval();
+                let bytes = ref_encode(lm, Some(kk.raw));
+                let replay = || json!({"kind": "wire-message", "msg": cu::show_msg(lm), "bytes": hex(&bytes)});
+                check_wire(bytes.clone(), &kk, 1, &mut r, &replay);
+            }
+            r.sym("unknown-attributes-on-the-wire");
+            shared.merge(r);
+        });
+    }
     let mut rep = shared.into_inner();
     crate::e3::c10_client::run(ctx, &mut rep);
     rep.outcome("fingerprint-accepted-iff-untouched");
@@ -260,9 +300,9 @@ pub fn run(ctx: &RunCtx) -> i32 {
         rep,
         Finish {
             level: "fault_enumeration",
-            rule: format!("codec: every single-attribute message of the full menu and the empty body x 4 tails containing FINGERPRINT (and x 10 headers for the empty body), every ordered pair over the {}-entry (<=64-byte values) menu (quick: one rotating tail per pair): wire bytes == reference (independent CRC-32 XOR 0x5354554e over the RFC input), accepted untouched, and after every single-bit fault at every bit and every byte := ^FF / +1 / 00 / FF at every byte never accepted as carrying a valid FINGERPRINT (acceptance = validating decoder returns it OR get_input_text+validate is true). Plus one DATA blob of every length 0..=300 (thorough 1100) + FINGERPRINT with the full walk, and the deep messages of C01 x 2 tails with a sparse walk (first 24 bytes, last 40 bytes, every 251st byte; quick tier: one alternating tail). Plus the offset family (FINGERPRINT alone / after MI behind a filler at every 4-aligned body offset 0..=4200 (thorough 16,400), around multiples of 4096 (1024), every offset 65,300..=65,524; walk at the first 24, last 40 and every 509th byte). Decoy values (DATA blobs imitating integrity / fingerprint attribute headers at every word of their last 48 bytes, singly and in pairs) in front of the four tails, sparse walk. For one message in 16 the untouched and a corrupted copy are also decoded by every construction route of the eight validating decoder configurations. client: see coverage.client. Non-trivial = message whose whole walk passed", menu_v.len()),
+            rule: format!("codec: every single-attribute message of the full menu and the empty body x 4 tails containing FINGERPRINT (and x 10 headers for the empty body), every ordered pair over the {}-entry (<=64-byte values) menu (quick: one rotating tail per pair): wire bytes == reference (independent CRC-32 XOR 0x5354554e over the RFC input), accepted untouched, and after every single-bit fault at every bit and every byte := ^FF / +1 / 00 / FF at every byte never accepted as carrying a valid FINGERPRINT (acceptance = validating decoder returns it OR get_input_text+validate is true). Plus one DATA blob of every length 0..=300 (thorough 1100) + FINGERPRINT with the full walk, and the deep messages of C01 x 2 tails with a sparse walk (first 24 bytes, last 40 bytes, every 251st byte; quick tier: one alternating tail). Plus the offset family (FINGERPRINT alone / after MI behind a filler at every 4-aligned body offset 0..=4200 (thorough 16,400), around multiples of 4096 (1024), every offset 65,300..=65,524; walk at the first 24, last 40 and every 509th byte). Unknown attributes on the wire (bytes from the reference encoder, which the library's encoder cannot produce): one unknown attribute (4 types, values of 0 / 1 / 4 / 7 / 33 bytes) at every position of the four tails, alone and behind a SOFTWARE, full walk. Decoy values (DATA blobs imitating integrity / fingerprint attribute headers at every word of their last 48 bytes, singly and in pairs) in front of the four tails, sparse walk. For one message in 16 the untouched and a corrupted copy are also decoded by every construction route of the eight validating decoder configurations. client: see coverage.client. Non-trivial = message whose whole walk passed", menu_v.len()),
             assumptions: vec!["CRC-32 detects all single-bit and single-byte errors by construction; the walk checks the plumbing (input range, length adjustment, XOR constant, attribute lookup)".into()],
-            required_symbols: vec!["accepted-untampered", "fault-walks", "singles", "pairs", "length-sweep", "deep-messages", "offset-family", "decoder-construction-routes", "decoy-values", "client-packet-ends-in-valid-fingerprint", "client-rejected-bad-or-missing-fingerprint", "client-completed-by-good-reply", "misplaced", "one-bit-wrong", "absent", "wrong-then-decoy", "wrong-then-second-fingerprint", "value-of-the-previous-message", "client-add-remove-collections"],
+            required_symbols: vec!["accepted-untampered", "fault-walks", "singles", "pairs", "length-sweep", "deep-messages", "offset-family", "decoder-construction-routes", "decoy-values", "unknown-attributes-on-the-wire", "client-packet-ends-in-valid-fingerprint", "client-rejected-bad-or-missing-fingerprint", "client-completed-by-good-reply", "misplaced", "one-bit-wrong", "absent", "wrong-then-decoy", "wrong-then-second-fingerprint", "value-of-the-previous-message", "client-add-remove-collections"],
             min_outcomes: 2,
             exhaustive: true,
             bounds: json!({"menu": menu_v.len(), "tails": 4}),
